@@ -89,6 +89,7 @@ type Contract struct {
 	Params     []string // for extern specs: parameter names
 	Results    []string
 	Implements []string
+	Returns    []string
 	File       string
 	Line       int
 }
@@ -466,7 +467,7 @@ func (p *parser) primary() (Expr, error) {
 var clauseKW = map[string]bool{"requires": true, "ensures": true, "xensures": true, "inv": true, "modifies": true,
 	"lock": true, "pure": true, "nopanic": true, "trusted": true, "maypanic": true, "params": true, "results": true,
 	"fn": true, "pred": true, "uf": true, "ghost": true, "global": true, "axiom": true, "xmodifies": true, "reads": true,
-	"callsonly": true, "delegates": true, "atcall": true, "exceptional": true, "implements": true, "opaque": true}
+	"callsonly": true, "delegates": true, "atcall": true, "exceptional": true, "implements": true, "opaque": true, "returns": true}
 
 // ParseSpecLines parses the logical lines (already stripped of the //@ prefix).
 func ParseSpecLines(pkg, file string, lines []string, lineNos []int) (*SpecFile, error) {
@@ -574,6 +575,8 @@ func ParseSpecLines(pkg, file string, lines []string, lineNos []int) (*SpecFile,
 				cur.Params = strings.Fields(strings.ReplaceAll(rest, ",", " "))
 			case "results":
 				cur.Results = strings.Fields(strings.ReplaceAll(rest, ",", " "))
+			case "returns":
+				cur.Returns = strings.Fields(strings.ReplaceAll(rest, ",", " "))
 			case "modifies", "xmodifies":
 				// modifies key: e1, e2    | modifies key
 				c := &Clause{Kind: kw, File: file, Line: l.n, Src: rest}
